@@ -382,8 +382,10 @@ def extra_oracle(s, obs, flavour):
 
 
 def project(obs, flavour):
-    """only what the property constrains: the decoded message list (kinds, and the name / message / details values whatever the
-    attribute order; duration, other attributes and text outside messages are dropped)"""
+    """only what the property constrains exactly: the decoded message list (kinds, and the name / details values whatever the
+    attribute order).  The wording of the location value (message=...) is constrained only through spec / the judge (it must end with
+    the failure's file:line and carry the test's file:line for outside failures); duration, other attributes and text outside
+    messages are dropped."""
     t = obs.split()
     try:
         if t and t[0] == ":parsed":
@@ -400,7 +402,7 @@ def project(obs, flavour):
             except ValueError:
                 return "RAW REJECT"
         msgs = decode_stream(unb(t[0]))
-        return repr([(n, sorted((k, v) for k, v in a if k in (b"name", b"message", b"details"))) for n, a in msgs])
+        return repr([(n, sorted((k, v) for k, v in a if k in (b"name", b"details"))) for n, a in msgs])
     except ValueError:
         return "REJECT"
     except Exception:
